@@ -12,6 +12,9 @@ HOOK_COMMITS = [
     "d42f800",  # kvs/distlock/verif_hooks.go: lease period setter
     "6bac5f6",  # container/iterable/verif_hooks.go: bounded list walk
     "c999370",  # kvs/inmem/verif_hooks.go: waiter table accessor
+    "734454b",  # container/iterable/verif_hooks.go: VerifListStats2 (values retained by non-live nodes)
+    "f8b4775",  # container/lru/verif_hooks.go: VerifStaleVals
+    "7f3df4d",  # timeout/verif_hooks.go: pool configuration / watchers / pending
 ]
 
 # id -> dict(text, note, technique, design_ref)
@@ -264,6 +267,37 @@ CHECKS["C07"] = dict(
     technique="TLA+ contract + implementation-shaped spec, TLC refinement/invariant/liveness check, per-edge script replay with settle on both "
               "backends, TLC trace validation (linearization search) of free-running and gate-scheduled executions",
     design_ref="DESIGN.md section 4, C07")
+
+CHECKS["C12"] = dict(
+    text="TimerHeap.tla transcribes the futures slice, every future's idx, Less/Swap/Push/Pop and container/heap's up/down; TLC exhausts "
+         "every heap shape for 4 futures x 3 fire times and 6 futures x 2 (thorough 5x3, 6x3, 5x4) under Push / heap.Pop / cancel (= "
+         "heap.Remove(idx)) in every order: index invariant arr[idx[f]] = f, heap order, and each operation changes the pending SET exactly "
+         "as the pool-level model assumes (Cancel removes exactly its future: front, middle, back, repeated, after firing). TimerImpl.tla "
+         "(workers, misCount, wake tokens, clock with maximal progress) is exhausted for never-early / at-most-once / cancel-effective and "
+         "refines the timed contract TimerAbs.tla. One script per edge of TimerHeap's graph (seed-sampled), TLC-simulated behaviours and "
+         "seeded random scripts (<= 500 futures, 1..8 goroutines, zero/negative/equal delays, cancels of every age, concurrent cancels) are "
+         "executed on the real package in real time, every callback stamping its start as its first statement; TLC validates the recorded "
+         "timed traces against TimerTrace.tla: no start before tb+d, no second start, no start after a Cancel that RETURNED before tb+d, "
+         "every never-cancelled future started by quiescence, no panic in Cancel. Bounded model checking + conformance, not a proof.",
+    note="Trusted: TLC, TimerAbs.tla, Go's monotonic clock, the stall detector (executions with a >250 ms overshoot of a 5 ms sleep are "
+         "discarded, never judged), timeout/verif_hooks.go (VerifPending for quiescing between scripts).",
+    technique="TLA+ array-level heap spec + pool-level spec refining a timed contract; TLC-generated arrival scripts executed in real time; TLC timed-trace validation",
+    design_ref="DESIGN.md section 4, C12")
+CHECKS["C13"] = dict(
+    text="TimerImpl.tla: TLC checks no-lost-wake-up (heap non-empty => a live worker is awake, or asleep with deadline <= earliest fire time, "
+         "or a wake token is pending), lateness <= 1 tick, watchers = live workers, restart after wind-down, refinement of TimerAbs.tla with "
+         "the lateness clause on (3 futures, delays {-1,0,1,3}, 2 workers; thorough 4 futures, 1..3 workers) and, under weak fairness with no "
+         "VIEW and no state constraint, pending & not cancelled ~> started and heap empty ~> watchers = 0. On the real package, one script at "
+         "a time per process with VerifConfigure(idle, maxWorkers): all orders of <= 4 arrival patterns {far, near, burst > pool, cancel-head, "
+         "idle gap} for pool limits 1/2/10 and idle timeouts of 1-10 units and 3 s (thorough: the default 30 s), seed-sampled edge scripts of "
+         "TimerImpl in two time mappings (faithful; far class stretched to 10 s and cancelled after quiescence), simulated and random scripts; "
+         "TLC validates the timed traces: every live future started within 2 s of its due time, lateness <= 2 s with prompt callbacks, sampled "
+         "watchers <= maxWorkers, zero watcher goroutines at the latest 2 x idle + 1 s after the last activity with nothing pending, a Call "
+         "after wind-down is started.",
+    note="Trusted: TLC, TimerAbs.tla, the accessors VerifConfigure/VerifWatchers/VerifPending (timeout/verif_hooks.go), goroutine stack dumps "
+         "('created by ...golibs/timeout'), the stall detector. Bounds L = Q = 2 s are two orders of magnitude above measured lateness.",
+    technique="TLA+ pool-level spec with safety, refinement and liveness (TLC); TLC-generated and enumerated arrival scripts executed in real time; TLC timed-trace validation",
+    design_ref="DESIGN.md section 4, C13")
 
 
 PENDING_REASON = "check not built yet in this round; the TLA+ design for it is in DESIGN.md section 4"
